@@ -39,6 +39,7 @@ def run(ses):
         jobs.append((c04.job_vary, (p, 'footer', 'some', a, 'none', a)))    # Some(F) -> None   (accept iff F == "")
         jobs.append((c04.job_vary, (p, 'footer', 'none', a, 'some', a)))    # None    -> Some(F') (accept iff F' == "")
         jobs.append((job_segment, (p, 'some'))); jobs.append((job_segment, (p, 'none')))
+        jobs.append((c04.job_footer_swap, (p,)))
         # edits of the footer segment itself: the S4 tamper query of C03 with an arbitrary segment text
         jobs.append((c03.job_tamper, (p, 'some', a, 'S4'))); jobs.append((c03.job_tamper, (p, 'some', a, 'S3')))
     from .. import kani
@@ -46,6 +47,8 @@ def run(ses):
     jobs += upper.footer_jobs(ses.tier)
     from .. import coreapi
     jobs.append((coreapi.job_core_api, ()))        # newtype constructors, builder(), setters, Clone: what the caller writes reaches the entry point unchanged
+    from .. import kani as _kani
+    jobs.append((_kani.job_le64, ()))        # the PAE length prefix is a summary in the SMT runs: Kani checks le64 itself on the compiled code (all 2^64 inputs)
     run_jobs(ses, jobs)
     ses.trusted_base = c04.TRUSTED + ['base64url encoding is injective and strict decoding is canonical']
     ses.assumptions = ['F, F\' arbitrary strings (absent == empty); key and assertion as at build time']
